@@ -19,11 +19,15 @@ local sockets, every short sequence of calls.
 
 Oracle (parts 1, 2) = invariants on the recorded trace (task, step, virtual time, thread), see World:
 steps in program order, one at a time, on the scheduler thread; a task is never in the ready queue twice or while
-it runs; a timed wake never before the requested instant; a blocked task resumes only after a sibling scheduled
+it runs (also with several tasks of priority < 1 and runs of high random draws); a timed wake never before the
+requested instant; a blocked task resumes only after a sibling scheduled
 it; a Select wake carries the task's own readable fd or an expired timeout; timers fire at >= each period, the
 expected number of times, never after cancel(); at the horizon nothing runnable is left un-run and every
 unfinished task waits for something that can never happen; a raising task leaves the others exactly as if it had
-ended there (differential twin); a sub-task's value / exception / plain return arrives at exactly its caller.
+ended there (differential twin); a sub-task's value / exception / plain return arrives at exactly its caller, also
+through two levels of sub-task calls; a Send resumes its task once, with the byte count, after all bytes reached the
+socket complete and in order whatever each send() accepted; a Recv hands over the next bytes of the stream or None
+after its timeout.
 
 Debugging aids: --only inline | inline:N (every N-th program) | threaded | threaded:K | epoll.
 """
@@ -986,7 +990,7 @@ def inline_suites (cfg):
           ("3 entities, <=3 yields", OPS_QUICK, 3, 3, 1),
           ("3 entities, <=4 yields", OPS_QUICK, 3, 4, 0),
           ("3 tasks, <=5 yields (<=2 each), sleepers", OPS_SLEEPERS + ("Se1", "S1", "S0"), 3, 5, 1, 2, False),
-          ("2 tasks, <=4 yields, socket Send/Recv with partial writes and short reads", OPS_IO_CTX, 2, 4, 2, 3, False),
+          ("2 tasks, <=3 yields, socket Send/Recv with partial writes and short reads", OPS_IO_CTX, 2, 3, 2, 3, False),
           ("2 tasks, <=4 yields (<=2 each), every priority assignment in {1,0.5}", OPS_PRIO, 2, 4, 2, 2, False, True),
           ("3 tasks, <=4 yields (<=2 each), every priority assignment in {1,0.5}", OPS_PRIO, 3, 4, 1, 2, False, True)]
 
@@ -1265,11 +1269,14 @@ def run (cfg):
   rep.rule = ("PART 1 (inline hub): every ordered tuple of entities within the suites listed under `bound` - an entity is a task "
               "(generator script of <=3 yields over the vocabulary: yield 0 / 1 / Sleep(2) / Sleep(None) / False / Select([fd],timeout None|1) / "
               "Again or task_function with a sub-task that yields a value | sleeps then yields | raises | returns before yielding | is a plain "
-              "function / wake the blocked siblings with schedule() / cancel the timers / Exit() / raise) or a Timer (one-shot, recurring "
+              "function | itself calls an inner sub-task (value, exception caught or not, before/after a sleep) / Send of 20000 or 5 bytes and Recv "
+              "(timeout None|1) on the task's fake socket / wake the blocked siblings with schedule() / cancel the timers / Exit() / raise) or a Timer (one-shot, recurring "
               "self-stopping, cancelled before fire, cancelled by its callback, selfStoppable=False) - run on a real Scheduler.run() with a "
-              "virtual clock and virtual select up to the horizon; entity 0 is a Task subclass with priority 0.5, the others Task(target=); "
-              "environment: fd readiness instant {never,+0.5,+1.5} per selecting task (all explored), Scheduler._random in {0.0,0.99} and "
-              "virtual time per step in {0,0.625} (deviations, bounded); a program with a raising task is also run with that task returning "
+              "virtual clock and virtual select up to the horizon; entity 0 is a Task subclass with priority 0.5, the others Task(target=) with "
+              "priority 1, except in the priority suites where every assignment of {1,0.5} to the tasks is enumerated; "
+              "environment: fd readiness instant {never,+0.5,+1.5} per selecting/receiving task (all explored); deviations (bounded): a run of "
+              "1..k high draws of Scheduler._random (k = number of tasks with priority < 1), virtual time per step 0.625 instead of 0, a send() "
+              "accepting half / one byte / nothing (EAGAIN) instead of everything, a recv() handing out one byte instead of everything; a program with a raising task is also run with that task returning "
               "instead (differential).  PART 2 (threaded hub): %d programs of the same grammar with the scheduler thread, the hub thread and "
               "an environment thread under the controlled-thread explorer, every schedule within the deviation bound (scheduling points: "
               "lines of the hand-off functions / all lines of recoco.py + every Event/Queue/select/pinger/Thread operation).  PART 3: every sequence "
